@@ -1,6 +1,7 @@
 (* C16 -- operations leave no residue.  Statements only.
-   [c16_ok] on EVERY schedule: no call panics; Close and Clean(modelled: Close)
-   succeed on any stack; and at every instant at which no handle is inside a
+   [c16_ok] on EVERY schedule: no call panics; Close and Clean succeed on any
+   stack (Clean may only lose the race for the list lock); and at every instant
+   at which no handle is inside a
    call -- provided no process has crashed before -- the directory contains
    exactly tables.list (if it exists) and the tables it names: no lock file, no
    temporary file, no unlisted table.  [C16_idle_owns_nothing]: also after
@@ -12,7 +13,7 @@ From RT Require Import Model.StackTrace Model.StackProto Proofs.LockProofs Proof
 Import ListNotations.
 
 Theorem C16_quiescent_clean : forall size_oracle attempts tabs scripts sched,
-  init_ok tabs -> Forall (fun s => forallb modelled s = true) scripts ->
+  init_ok tabs ->
   c16_ok (trace_of size_oracle attempts tabs scripts sched) = true.
 Proof. exact c16_all_traces. Qed.
 Print Assumptions C16_quiescent_clean.
@@ -22,3 +23,17 @@ Theorem C16_idle_owns_nothing : forall size_oracle attempts tabs scripts sched w
   nth_error (w_handles w) h = Some hd -> h_pc hd = HIdle -> owns_nothing (w_fs w) h.
 Proof. exact idle_owns_nothing. Qed.
 Print Assumptions C16_idle_owns_nothing.
+
+(* non-vacuity: a compaction killed right after its commit leaves its inputs on
+   disk; the Clean of another handle unlinks them *)
+Local Open Scope N_scope.
+Example C16_ex_clean :
+  let tabs := [(0%nat, {| tf_min := 1; tf_max := 1; tf_txs := [100%nat]; tf_size := 100 |});
+               (1%nat, {| tf_min := 2; tf_max := 2; tf_txs := [101%nat]; tf_size := 100 |})] in
+  let sched := map (fun _ => Step 0 None) (seq 0 15) ++ [Crash 0] ++ map (fun _ => Step 1 None) (seq 0 30) in
+  let tr := trace_of (fun _ => 100) 50 tabs [[AOpen; ACompactAll]; [AOpen; AClean; ARead]] sched in
+  c16_ok tr = true /\
+  existsb (fun e => match e with EFs 1 FRemove (PT 0) FOk _ => true | _ => false end) tr = true /\
+  existsb (fun e => match e with EFs 1 FRemove (PT 1) FOk _ => true | _ => false end) tr = true /\
+  existsb (fun e => match e with ERet 1 AClean ROk => true | _ => false end) tr = true.
+Proof. vm_compute. repeat split. Qed.
